@@ -156,6 +156,11 @@ struct RunSpec {
 
 typedef std::function<Outcome(RunSpec&)> RunFn;
 
+// called by a harness once the configuration of the run is final and before anything can crash:
+// lets the runner recover the configuration of a run that killed the worker
+inline FILE*& out_fp() { static FILE* f = nullptr; return f; }
+inline void announce(const RunSpec& rs) { if (out_fp()) { fprintf(out_fp(), "CFG %llu %s\n", (unsigned long long)rs.seed, rs.cfg.str().c_str()); fflush(out_fp()); } }
+
 // silence library chatter (pomerol prints progress on std::cout and errors on std::cerr)
 struct NullBuf : std::streambuf { int overflow(int c) override { return c; } };
 
@@ -182,6 +187,7 @@ inline int harness_main(int argc, char** argv, const char* name, const RunFn& ru
         else { fprintf(stderr, "%s: unknown argument %s\n", name, a.c_str()); return 2; }
     }
     FILE* out = fdopen(dup(1), "w");
+    out_fp() = out;
     static NullBuf nullbuf;
     std::streambuf* old_cout = std::cout.rdbuf();
     std::streambuf* old_cerr = std::cerr.rdbuf();
@@ -226,11 +232,28 @@ __attribute__((used, visibility("default"))) const char* __asan_default_options(
 }
 __attribute__((used, visibility("default"))) const char* __ubsan_default_options() { return "print_stacktrace=0:halt_on_error=0"; }
 void __ubsan_get_current_report_data(const char** kind, const char** msg, const char** file, unsigned* line, unsigned* col, char** addr) __attribute__((weak));
+void __sanitizer_symbolize_pc(void* pc, const char* fmt, char* out_buf, size_t out_buf_size) __attribute__((weak));
+int backtrace(void** buffer, int size);
 __attribute__((used, visibility("default"))) void __ubsan_on_report(void) {
     if (!__ubsan_get_current_report_data) { hc::ubsan_reports().push_back("ubsan report"); return; }
     const char *k = 0, *m = 0, *f = 0; unsigned l = 0, c = 0; char* a = 0;
     __ubsan_get_current_report_data(&k, &m, &f, &l, &c, &a);
     std::string s = std::string(k ? k : "?") + ": " + (m ? m : "") + " at " + (f ? f : "?") + ":" + std::to_string(l);
+    // innermost frame that belongs to pomerol (the UB location itself is often inside an STL/Eigen header)
+    std::string where;
+    if (__sanitizer_symbolize_pc) {
+        void* pcs[40]; int n = backtrace(pcs, 40);
+        for (int i = 1; i < n && where.empty(); i++) {
+            char buf[4096]; memset(buf, 0, sizeof buf);
+            __sanitizer_symbolize_pc((char*)pcs[i] - 1, "%f %s:%l", buf, sizeof buf - 2);
+            // inlined frames come as consecutive NUL-terminated strings, innermost first
+            for (const char* p = buf; *p && where.empty(); p += strlen(p) + 1) {
+                std::string b(p);
+                if (b.find("/src/pomerol/") != std::string::npos || b.find("/include/pomerol/") != std::string::npos || b.find("mpi_dispatcher") != std::string::npos) where = b;
+            }
+        }
+    }
+    if (!where.empty()) s += " in " + where;
     if (hc::ubsan_reports().size() < 200) hc::ubsan_reports().push_back(s);
 }
 }
